@@ -18,6 +18,7 @@ mod wire;
 
 mod c01;
 mod c02;
+mod c06;
 mod c15;
 mod c16;
 mod c17;
@@ -98,6 +99,7 @@ fn main() {
     let code = match prop.as_str() {
         "C01" => c01::run(&ctx, evidence.as_ref()),
         "C02" => c02::run(&ctx, evidence.as_ref()),
+        "C06" => c06::run(&ctx, evidence.as_ref()),
         "C15" => c15::run(&ctx, evidence.as_ref()),
         "C16" => c16::run(&ctx, evidence.as_ref()),
         "C17" => c17::run(&ctx, evidence.as_ref()),
